@@ -498,13 +498,26 @@ def runRequests (P : Pack) (M : CacheModel) (fuel : Nat) : M.σ → List Nat →
     | .panic => ("panic" :: acc).reverse
     | .outOfFuel => ("out-of-fuel" :: acc).reverse
 
+/-- a cache key on the wire: `<pack id>.<offset>` (the real key is the pair), or a bare offset (pack 7).
+The model's key is the injective encoding `pack * 2^64 + offset`. -/
+def parseKey? (s : String) : Option Nat :=
+  match s.splitOn "." with
+  | [pack, off] => do
+    let pack ← pack.toNat?
+    let off ← off.toNat?
+    if off < 2 ^ 64 then some (pack * 2 ^ 64 + off) else none
+  | [off] => do
+    let off ← off.toNat?
+    if off < 2 ^ 64 then some (7 * 2 ^ 64 + off) else none
+  | _ => none
+
 /-- `p/<key>/<data>/<kind>/<packed>` or `g/<key>` -/
 def runCacheOps (M : CacheModel) : M.σ → List String → List String → Option (List String)
   | _, [], acc => some acc.reverse
   | c, op :: rest, acc =>
     match op.splitOn "/" with
     | ["p", key, data, kind, packed] => do
-      let key ← key.toNat?
+      let key ← parseKey? key
       let data ← C56.parseData? data
       let kind ← parseKind? kind
       let packed ← packed.toNat?
@@ -512,7 +525,7 @@ def runCacheOps (M : CacheModel) : M.σ → List String → List String → Opti
       | none => some (("panic" :: acc).reverse)
       | some c' => runCacheOps M c' rest acc
     | ["g", key] => do
-      let key ← key.toNat?
+      let key ← parseKey? key
       match M.get c key with
       | (none, c') => runCacheOps M c' rest ("miss" :: acc)
       | (some v, c') => runCacheOps M c' rest (s!"{kindStr v.kind}:{v.data.length}:{C56.sha1Hex v.data}:{v.packed}" :: acc)
